@@ -35,6 +35,10 @@ pub fn content(name: &str, version: u16) -> Option<Node> {
         "three-mixed" => vec![stream("a", 64, 1), storage("B", vec![stream("x", 4096, 2), stream("Y", 0, 3)]), stream("cc", 4097, 4)],
         "four-sizes" => vec![stream("p", 0, 0), stream("q", 1, 0), stream("r", 4095, 0), stream("st", 2 * sl + 1, 0)],
         "four-names" => vec![stream("\u{1f600}", 10, 0), stream("\u{e000}x", 20, 0), stream("\u{e9}", 30, 0), stream("Z", 40, 0)],
+        // same-length ASCII names on both sides of the letters: order depends on folding a-z (only) to upper case
+        "punct-names" => vec![stream("ab", 10, 0), stream("a_", 20, 0), stream("a`", 30, 0), stream("a{", 40, 0)],
+        // order decided by upper-casing non-ASCII letters (omega+a < OMEGA+b, e-acute+a < E-ACUTE+b)
+        "cased-names" => vec![stream("\u{3c9}a", 10, 0), stream("\u{3a9}b", 20, 0), stream("\u{e9}a", 30, 0), stream("\u{c9}b", 40, 0)],
         "three-minis" => vec![stream("m1", 130, 0), stream("m2", 64, 0), stream("m3", 1, 0)],
         "nested" => vec![storage("d", vec![storage("e", vec![stream("f", 100, 9)]), stream("g", 5000, 0)]), stream("h", 3, 0)],
         "empty" => vec![],
@@ -47,6 +51,8 @@ pub fn content(name: &str, version: u16) -> Option<Node> {
 }
 
 pub const CONTENTS: [&str; 8] = ["empty", "two-mini", "one-big", "three-mixed", "four-sizes", "four-names", "three-minis", "nested"];
+/// Contents of the layout enumeration (C04): the above plus two whose sibling order hinges on case folding.
+pub const LAYOUT_CONTENTS: [&str; 10] = ["empty", "two-mini", "one-big", "three-mixed", "four-sizes", "four-names", "three-minis", "nested", "punct-names", "cased-names"];
 
 #[derive(Clone, Debug, Serialize, Deserialize)]
 pub struct LayoutCase {
@@ -427,7 +433,7 @@ fn report(ctx: &Ctx, c: &LayoutCase, problems: Vec<(String, String)>) {
 
 pub fn explore_layouts(ctx: &Ctx, version: u16, thorough: bool) -> E2Stats {
     let mut stats = E2Stats { files: 0, cases: 0, steps: 0, rb_valid: 0 };
-    for cname in CONTENTS {
+    for cname in LAYOUT_CONTENTS {
         let root = content(cname, version).unwrap();
         let ls = layouts(cname, version, thorough);
         let mops = mutation_ops(&root);
